@@ -628,7 +628,7 @@ func NilGuard(c *core.Ctx, rule string, scope func(t *types.Named) bool) {
 			fmt.Sprintf("calls helper %s, which uses field %s unguarded, without establishing %s != nil", bl.via, bl.f.Name(), bl.f.Name()))
 	}
 	c.Floor(rule, "belief fields", len(beliefs), 1)
-	c.Floor(rule, "uses of belief fields", nUses, 1)
+	c.Floor(rule, "uses of belief fields", nUses, 0) // a single use may legitimately move into a local copy of the field
 }
 
 func fieldOwnerName(c *core.Ctx, fv *types.Var) string {
